@@ -12,6 +12,7 @@ import (
 	"os"
 	"sort"
 	"strings"
+	"sync"
 	"time"
 
 	"github.com/uhn/ggql/pkg/ggql"
@@ -188,6 +189,24 @@ func sharedParse(u *gq.Universe, cases []gq.Case, worlds map[string]*gq.World, s
 			if err != nil || exe == nil {
 				continue // a document refused when parsed is judged by the per-case replay
 			}
+			// a resolver that panics is the application's fault, and callers such as net/http recover from it:
+			// what such a call leaves behind in the parsed request must not reach the calls after it
+			sites := map[string]bool{}
+			for _, call := range cases[idx[0]].Exp.Calls {
+				site := call.Node + "." + call.Field
+				if len(sites) >= 3 || sites[site] {
+					continue
+				}
+				sites[site] = true
+				w.SetFaults(nil)
+				w.SetPanic(site)
+				func() {
+					defer func() { _ = recover() }()
+					_ = w.RunExe(exe, cases[idx[0]].Op, cases[idx[0]].Vars)
+				}()
+				w.SetPanic("")
+				rep.Class("shared-parse:after-recovered-panic")
+			}
 			seq := append([]int{}, idx...)
 			for j := len(idx) - 1; j >= 0; j-- {
 				seq = append(seq, idx[j])
@@ -218,6 +237,58 @@ func sharedParse(u *gq.Universe, cases []gq.Case, worlds map[string]*gq.World, s
 						What: d.Aspect + ": (one parsed executable resolved repeatedly) " + d.What, Known: known})
 				}
 				break // later calls of a session that already went wrong add nothing
+			}
+			// the calls of a session overlapping in time: one parsed executable resolved by several goroutines
+			var plain []int
+			for _, i := range idx {
+				if len(cases[i].Faults) == 0 {
+					plain = append(plain, i)
+				}
+			}
+			if len(plain) > 0 && gi%3 == 0 {
+				w.SetFaults(nil)
+				var wg sync.WaitGroup
+				var mu sync.Mutex
+				reported := false
+				for g := 0; g < 4; g++ {
+					wg.Add(1)
+					go func(g int) {
+						defer wg.Done()
+						defer func() {
+							if r := recover(); r != nil {
+								mu.Lock()
+								if !reported {
+									reported = true
+									rep.Mismatch(vh.Mismatch{Case: map[string]interface{}{"request": k, "strategy": s, "aspect": "data", "session": "4 goroutines resolving one parsed executable"},
+										What: fmt.Sprintf("data: (one parsed executable resolved concurrently) panic: %v", r)})
+								}
+								mu.Unlock()
+							}
+						}()
+						for n := 0; n < 12; n++ {
+							c := &cases[plain[(g+n)%len(plain)]]
+							act := w.RunExeQuiet(exe, c.Op, c.Vars)
+							diffs := gq.Compare(c.Exp, act, false)
+							if len(diffs) > 0 && c.ExpK != nil && len(gq.Compare(c.ExpK, act, false)) == 0 {
+								diffs = nil // (explained by a known deviation: attributed by the sequential passes)
+							}
+							if len(diffs) > 0 {
+								mu.Lock()
+								if !reported {
+									reported = true
+									rep.Mismatch(vh.Mismatch{Case: map[string]interface{}{"fam": c.Fam, "request": k, "op": c.Op, "vars": c.Vars, "strategy": s, "aspect": diffs[0].Aspect,
+										"session": "4 goroutines resolving one parsed executable"},
+										What: diffs[0].Aspect + ": (one parsed executable resolved concurrently) " + diffs[0].What})
+								}
+								mu.Unlock()
+								return
+							}
+						}
+					}(g)
+				}
+				wg.Wait()
+				w.TakeCalls()
+				rep.Class("shared-parse:concurrent")
 			}
 		}
 	}
